@@ -89,6 +89,15 @@ def run(tier):
     import checks.c04 as c04
     run.add_cases("c01_shaped", c04.shaped_cases(tier, "c01s"))
     run.add_cases("c01_edges", edge_shapes(tier))
+    # programs enumerated by TLC over the wide statement pool (MCExec; Total and EdgeSet hold on the machines for every one of them)
+    import mcexec
+    import astgen as A2
+    wprogs, wstats, wt = mcexec.run(tier, "c01_mcexec_wide", wide=True)
+    wr = A2.rng(101)
+    wsample = wprogs if len(wprogs) <= (200 if tier == "quick" else 8000) else wr.sample(wprogs, 200 if tier == "quick" else 8000)
+    run.add_cases("c01_enum_wide", mcexec.cases(wsample, wt, "c01w"))
+    run.states += wstats["distinct"]
+    run.trans += wstats["states"]
     run.classify_all()
     # stanzas in file order, matches in cursor order (strict mode): the `match` events against raw tree-sitter
     import checks.c03 as c03
